@@ -51,7 +51,7 @@ Lines2 == {q \in CanonOpen(A2) \cup CanonOpen(A3) : TRUE} \cup {Rev(q) : q \in S
           \cup RingsOf(Q3) \cup Sample(RingsOf(Q4), 2, 0)
 
 None == <<>>
-H2Stride == IF Stride >= 8 THEN Stride \div 4 ELSE Stride
+H2Stride == IF Stride >= 8 THEN Stride \div 8 ELSE 1
 Job(k, a, b, c) == [k |-> k, a |-> a, b |-> b, c |-> c]
 HR == SetToSeq(HoleRings)
 NHR == Len(HR)
